@@ -62,6 +62,49 @@ SymCalls ==
 OwnCalls ==
     {[C0 EXCEPT !.op = "chown", !.p = p, !.uid = u, !.gid = g] : p \in Paths, u \in {1001, -1}, g \in {1001}}
 
+(***************************************************************************)
+(* Profile "handles" (C02): one or two names of one file, up to MaxH open  *)
+(* handles, offsets and lengths straddling the current size.               *)
+(***************************************************************************)
+MaxH == 2
+MaxSize == 7
+FA == AbsP(<<"w", "a">>)
+FB == AbsP(<<"w", "b">>)
+OpenFlagSets ==
+    {<<acc>> \o app \o cr \o tr : acc \in {"RDONLY", "WRONLY", "RDWR"}, app \in {<<>>, <<"APPEND">>},
+                                   cr \in {<<>>, <<"CREATE">>, <<"CREATE", "EXCL">>}, tr \in {<<>>, <<"TRUNC">>}}
+
+SizeOfH(s, h) == IF s.h[h].open /\ ~s.h[h].dir /\ s.h[h].ino \in DOMAIN s.ino THEN Len(s.ino[s.h[h].ino].data) ELSE 0
+
+HCallsFor(s, h) ==
+    LET sz == SizeOfH(s, h)
+        offs == {-1, 0, sz - 1, sz, sz + 2} \cap (-1..MaxSize) IN
+    {[C0 EXCEPT !.op = "read", !.h = h, !.n = n] : n \in {0, 1, 3}}
+    \cup {[C0 EXCEPT !.op = "readat", !.h = h, !.n = n, !.off = o] : n \in {0, 2}, o \in offs}
+    \cup {[C0 EXCEPT !.op = "write", !.h = h, !.data = d] : d \in {<<1>>, <<2, 2, 2>>, <<>>}}
+    \cup {[C0 EXCEPT !.op = "writestring", !.h = h, !.data = <<3>>]}
+    \cup {[C0 EXCEPT !.op = "writeat", !.h = h, !.data = <<3, 3>>, !.off = o] : o \in offs}
+    \* directory offsets are opaque cookies on Linux: only the rewind Seek(0, 0) is generated for directories
+    \cup (IF s.h[h].dir THEN {[C0 EXCEPT !.op = "seek", !.h = h, !.off = 0, !.wh = 0]}
+          ELSE {[C0 EXCEPT !.op = "seek", !.h = h, !.off = o, !.wh = wh] : o \in {-1, 0, 1, sz + 2}, wh \in {0, 1, 2}}
+               \cup {[C0 EXCEPT !.op = "seek", !.h = h, !.off = 0, !.wh = 7]})
+    \cup {[C0 EXCEPT !.op = "ftruncate", !.h = h, !.n = n] : n \in {-1, 0, 1, sz + 2}}
+    \cup {[C0 EXCEPT !.op = o, !.h = h] : o \in {"fstat", "fsync", "close", "fchdir"}}
+    \cup {[C0 EXCEPT !.op = "fchmod", !.h = h, !.perm = 384]}
+    \cup {[C0 EXCEPT !.op = o, !.h = h, !.n = n] : o \in {"freaddir", "freaddirnames"}, n \in {-1, 0, 1, 2}}
+
+HandleProfileCalls(s) ==
+    (IF Len(s.h) < MaxH
+        THEN {[C0 EXCEPT !.op = "open", !.p = p, !.flag = f, !.perm = 420] : p \in {FA, FB}, f \in OpenFlagSets}
+             \cup {[C0 EXCEPT !.op = "open", !.p = WorkP, !.flag = <<"RDONLY">>]}
+        ELSE {})
+    \cup UNION {HCallsFor(s, h) : h \in DOMAIN s.h}
+    \cup {[C0 EXCEPT !.op = "truncate", !.p = FA, !.n = n] : n \in {0, 2, 5}}
+    \cup {[C0 EXCEPT !.op = "rename", !.p = FA, !.q = FB], [C0 EXCEPT !.op = "rename", !.p = FB, !.q = FA],
+          [C0 EXCEPT !.op = "link", !.p = FA, !.q = FB], [C0 EXCEPT !.op = "remove", !.p = FA],
+          [C0 EXCEPT !.op = "remove", !.p = FB], [C0 EXCEPT !.op = "writefile", !.p = FA, !.data = <<1, 1, 1>>, !.perm = 420],
+          [C0 EXCEPT !.op = "readfile", !.p = FA], [C0 EXCEPT !.op = "readfile", !.p = FB]}
+
 \* a call on a two-component path whose first component does not exist tells nothing that the
 \* same call with the other second component does not: keep one representative
 FirstName == CHOOSE a \in Names : TRUE
@@ -79,6 +122,7 @@ Calls(s) ==
     LET all == CASE Profile = "ns"    -> NsCalls \cup OwnCalls
                  [] Profile = "nsorefa" -> NsCalls
                  [] Profile = "nssym" -> NsCalls \cup SymCalls \cup OwnCalls
+                 [] Profile = "handles" -> HandleProfileCalls(s)
                  [] OTHER -> NsCalls IN
     {c \in all : ~Pruned(s, c)}
 
@@ -86,8 +130,14 @@ EdgeFile == IF "VERIF_EDGES" \in DOMAIN IOEnv THEN IOEnv.VERIF_EDGES ELSE ""
 
 Emit(rec) == IF EdgeFile = "" THEN TRUE ELSE CSVWrite("%1$s", <<ToJson(rec)>>, EdgeFile)
 
+\* the handle profile starts with one three-byte file
+InitFor ==
+    IF Profile = "handles"
+    THEN WriteFile(InitSt, [C0 EXCEPT !.op = "writefile", !.p = FA, !.data = <<1, 2, 3>>, !.perm = 420]).st
+    ELSE InitSt
+
 Init ==
-    /\ st = InitSt
+    /\ st = InitFor
     /\ hist = <<>>
     /\ last = [call |-> C0, res |-> R0]
 
@@ -95,11 +145,13 @@ Next ==
     /\ Len(hist) < MaxLen
     /\ \E c \in Calls(st) :
         LET o == Apply(st, c) IN
+        /\ \A i \in DOMAIN o.st.ino : Len(o.st.ino[i].data) <= MaxSize + 3
         /\ st' = o.st
         /\ hist' = Append(hist, c)
         /\ last' = [call |-> c, res |-> o.res]
-        /\ Emit([hist |-> hist, call |-> c, res |-> o.res, pre |-> Proj(st), post |-> Proj(o.st),
-                 cwd |-> CwdPath(o.st)])
+        /\ Emit([hist |-> IF Profile = "handles" THEN <<[C0 EXCEPT !.op = "writefile", !.p = FA, !.data = <<1, 2, 3>>, !.perm = 420]>> \o hist ELSE hist,
+                 call |-> c, res |-> o.res, pre |-> Proj(st), post |-> Proj(o.st),
+                 cwd |-> CwdPath(o.st), hs |-> HObs(o.st)])
 
 Spec == Init /\ [][Next]_vars
 
@@ -128,7 +180,7 @@ TreeWellFormed ==
 
 \* a failed call changes nothing (RemoveAll is documented to remove what it can)
 FailedCallChangesNothing ==
-    [][(last'.res.err # "ok" /\ last'.call.op # "removeall") => (st' = st)]_vars
+    [][(last'.res.err \notin {"ok", "EOF"} /\ last'.call.op # "removeall") => (st' = st)]_vars
 
 \* a successful call changes only what it names: every path outside the (resolved) operands
 \* keeps its inode, and every inode other than the operands' keeps its attributes and content
@@ -137,6 +189,7 @@ OperandIds(s, c) ==
         r3 == Res(s, c.q, TRUE)   r4 == Res(s, c.q, FALSE)
         ids(r) == IF r.err = "ok" THEN ({r.id} \cup (IF r.par = <<>> THEN {} ELSE {Last(r.par)})) \ {0} ELSE {} IN
     ids(r1) \cup ids(r2) \cup ids(r3) \cup ids(r4)
+    \cup (IF c.op \in HOps /\ c.h \in DOMAIN s.h THEN {s.h[c.h].ino} ELSE {})
 
 SuccessIsLocal ==
     [][LET c == last'.call
